@@ -65,6 +65,12 @@ def _worker(args):
     finally:
         signal.alarm(0)
     res["wall_s"] = round(time.time() - t0, 3)
+    try:
+        from .harness import CROSS
+        res["cross"] = {"checked": CROSS["checked"], "agree": CROSS["agree"], "cvc5_unknown": CROSS["cvc5_unknown"], "disagree": list(CROSS["disagree"])}
+        CROSS.update({"checked": 0, "agree": 0, "cvc5_unknown": 0, "disagree": []})
+    except Exception:      # noqa: BLE001
+        pass
     return res
 
 
@@ -89,6 +95,8 @@ def main(argv=None):
     seed = int(os.environ.get("VERIF_SEED", "0"))
     tier = a.tier if a.tier in ("quick", "thorough") else "quick"
     t_start = time.time()
+    if tier == "thorough":
+        os.environ.setdefault("GBVERIF_CVC5_EVERY", "25")      # every 25th decided query is re-decided by cvc5
     mod = importlib.import_module(f"gbverif.props.{prop.lower()}")
     cases = mod.cases(tier, seed)
     if a.only:
@@ -179,6 +187,14 @@ def main(argv=None):
             harness_error = (harness_error or "") + f" translator validation failed: {type(e).__name__}: {e}"
     shutil.rmtree(tmpdir, ignore_errors=True)
     inconclusive = [r for r in results if r["verdict"] in ("unknown", "inconclusive", "error")]
+    cross = {"checked": 0, "agree": 0, "cvc5_unknown": 0, "disagree": []}
+    for r in results:
+        c = r.get("cross") or {}
+        for k in ("checked", "agree", "cvc5_unknown"):
+            cross[k] += c.get(k, 0)
+        cross["disagree"] += [dict(d_, query=r["name"]) for d_ in c.get("disagree", [])]
+    if cross["disagree"]:
+        harness_error = (harness_error or "") + f" z3 and cvc5 disagree on {len(cross['disagree'])} queries: {cross['disagree'][:3]}"
     exit_code = 0
     for sig, k in sorted(known_hits.items()):
         print(f"KNOWN-FINDING: property={prop} {k.get('what', sig)}")
@@ -207,7 +223,7 @@ def main(argv=None):
             print(f"INCONCLUSIVE {r['name']}: {r['verdict']} {r['detail'][:800]}")
         if harness_error:
             print("HARNESS-ERROR", harness_error)
-    write_evidence(prop, tier, seed, mod, results, tv, time.time() - t_start, len(violations), known_hits)
+    write_evidence(prop, tier, seed, mod, results, tv, time.time() - t_start, len(violations), known_hits, cross)
     slow = sorted(results, key=lambda r: -r.get("wall_s", 0))[:3]
     print("slowest cases: " + "; ".join(f"{r.get('wall_s', 0):.1f}s {r['name'][:90]}" for r in slow))
     n_unsat = sum(1 for r in results if r["verdict"] == "unsat")
@@ -217,7 +233,7 @@ def main(argv=None):
     return exit_code
 
 
-def write_evidence(prop, tier, seed, mod, results, tv, wall, n_viol, known_hits):
+def write_evidence(prop, tier, seed, mod, results, tv, wall, n_viol, known_hits, cross=None):
     from .harness import jsonable
     E = engine()
     meta = getattr(mod, "META", {})
@@ -269,6 +285,7 @@ def write_evidence(prop, tier, seed, mod, results, tv, wall, n_viol, known_hits)
             "solver": "z3 " + __import__("z3").get_version_string(),
             "solver_time_s": round(sum(r.get("solver_s", 0) for r in results), 2),
             "symbolic_execution_time_s": round(sum(r.get("symex_s", 0) for r in results), 2),
+            "cross_checked_cvc5": {k: (v if k != "disagree" else len(v)) for k, v in (cross or {}).items()},
             "translator_validation_cases": tv.get("cases", 0),
             "translator_validation_mismatches": len(tv.get("mismatches", [])),
             "known_findings_hit": sorted(known_hits),
